@@ -3,7 +3,7 @@ from pyvc.verify import Post, Case, Equiv, NativeFacts
 from contracts import common, C08
 
 PROPERTY = 'C05'
-REF_MODULES = ['ref_err', 'ref_core', 'ref_extra']
+REF_MODULES = ['ref_err', 'ref_core', 'ref_extra', 'ref_auto', 'ref_match', 'ref_reduce']
 
 
 def config(cfg):
@@ -42,6 +42,11 @@ def contracts():
                            2: dict(vars=[('recurse', 'ref')])}))
     from contracts import extra
     cs += common.shared(extra, ['core.GlomError.__str__', 'core.GlomError._finalize', 'core.PathAccessError.get_message'])
+    # "lists the spec at every level of nesting": every composite spec hands its sub-specs to the evaluator (one child scope per level) --
+    # the handler contracts of C03 say which recursive evaluations happen
+    from contracts import C03
+    cs += common.shared(C03, ['core.Spec.glomit', 'core._handle_tuple', 'core._handle_dict', 'core._handle_list', 'core.Coalesce.glomit', 'core.Pipe.glomit',
+                              'core.Call.glomit', 'core.Ref.glomit', 'core.AUTO'])
     return cs
 
 
